@@ -243,6 +243,8 @@ def main(argv):
             return run_check(cmd, tier)
         if cmd == "replay":
             return run_replay(argv[1])
+        if cmd == "_lazy":
+            return kernel.lazy_main(load_workload(argv[1]), argv[2])
         if cmd == "_host":
             return kernel.host_main(load_workload(argv[1]), argv[2])
         if cmd == "_solo":
